@@ -6,6 +6,7 @@ import (
 	"go/types"
 	"sort"
 	"strings"
+	"unicode"
 
 	"golang.org/x/tools/go/ssa"
 
@@ -222,6 +223,52 @@ func addPureByteModels(m *fold.Machine) {
 	}
 	searchByte("IndexByte", strings.IndexByte)
 	searchByte("LastIndexByte", strings.LastIndexByte)
+	// trimming functions on concrete contents: the result is a view of the same memory
+	trim := func(name string, cut func(a, arg string) (left, right int), hasArg bool) {
+		model := func(cl *fold.Call) fold.Val {
+			a, ok := concreteBytes(cl.M, cl.Args[0])
+			arg := ""
+			if ok && hasArg {
+				var b []byte
+				b, ok = concreteBytes(cl.M, cl.Args[1])
+				arg = string(b)
+			}
+			if !ok {
+				cl.M.Emit(fold.Effect{Kind: "call", Name: name, Args: cl.Args})
+				l := fold.LenOf(cl.Args[0])
+				hi := l.Hi
+				if l.Top {
+					hi = fold.MaxInt64
+				}
+				return fold.SymSeq{Name: fmt.Sprintf("%s(%s)", name, fold.Show(cl.Args[0])), Len: fold.Int{Lo: 0, Hi: hi}}
+			}
+			left, right := cut(string(a), arg)
+			switch v := cl.Args[0].(type) {
+			case fold.SliceV:
+				v.Lo += int64(left)
+				v.Len -= int64(left + right)
+				v.Cap -= int64(left)
+				return v
+			case fold.Str:
+				return fold.Str(string(a)[left : len(a)-right])
+			}
+			return fold.Str(string(a)[left : len(a)-right])
+		}
+		m.Models["bytes."+name] = model
+		m.Models["strings."+name] = model
+	}
+	trim("TrimRight", func(a, cs string) (int, int) { return 0, len(a) - len(strings.TrimRight(a, cs)) }, true)
+	trim("TrimLeft", func(a, cs string) (int, int) { return len(a) - len(strings.TrimLeft(a, cs)), 0 }, true)
+	trim("Trim", func(a, cs string) (int, int) {
+		l := len(a) - len(strings.TrimLeft(a, cs))
+		return l, len(a) - l - len(strings.Trim(a, cs))
+	}, true)
+	trim("TrimSuffix", func(a, sfx string) (int, int) { return 0, len(a) - len(strings.TrimSuffix(a, sfx)) }, true)
+	trim("TrimPrefix", func(a, pfx string) (int, int) { return len(a) - len(strings.TrimPrefix(a, pfx)), 0 }, true)
+	trim("TrimSpace", func(a, _ string) (int, int) {
+		l := len(a) - len(strings.TrimLeftFunc(a, unicode.IsSpace))
+		return l, len(a) - l - len(strings.TrimSpace(a))
+	}, false)
 }
 
 // globalVal returns the value a load of the global yields in the evaluator.
